@@ -124,6 +124,47 @@ func diagnoseBlockedWriter(pid int) (string, string) {
 	return "", desc
 }
 
+// diagnoseSpin recognises a worker that is burning CPU inside the library without ever returning: it
+// must have used CPU for most of the deadline and keep doing so; then SIGQUIT makes the Go runtime dump
+// all goroutine stacks, and a running / runnable goroutine with library frames is the positive finding.
+// Anything else (idle, waiting for a child, harness code) gives no diagnosis.
+func diagnoseSpin(pid int, out *bytes.Buffer, done <-chan error, deadline time.Duration) string {
+	cpu1, _ := procCPU(pid)
+	time.Sleep(time.Second)
+	cpu2, _ := procCPU(pid)
+	ticks := int64(100) // USER_HZ
+	if cpu1 < 0 || cpu2-cpu1 < ticks*7/10 || cpu2 < int64(deadline.Seconds())*ticks/2 {
+		return ""
+	}
+	before := out.Len()
+	_ = syscall.Kill(pid, syscall.SIGQUIT)
+	select {
+	case <-done:
+	case <-time.After(5 * time.Second):
+	}
+	dump := out.String()
+	if before < len(dump) {
+		dump = dump[before:]
+	}
+	for _, g := range strings.Split(dump, "\n\n") {
+		head := g
+		if i := strings.IndexByte(g, '\n'); i > 0 {
+			head = g[:i]
+		}
+		if !(strings.Contains(head, "[running") || strings.Contains(head, "[runnable")) || !strings.Contains(g, "in-toto-golang/in_toto.") {
+			continue
+		}
+		var frames []string
+		for _, l := range strings.Split(g, "\n") {
+			if strings.Contains(l, "in-toto-golang/in_toto.") && len(frames) < 3 {
+				frames = append(frames, strings.TrimSpace(l))
+			}
+		}
+		return fmt.Sprintf("the calling process used %.0f s of CPU in %s and is still computing inside the library (goroutine dump on SIGQUIT): %s", float64(cpu2)/float64(ticks), deadline, strings.Join(frames, " <- "))
+	}
+	return ""
+}
+
 func firstFields(s string, n int) string {
 	f := strings.Fields(s)
 	if len(f) > n {
@@ -177,8 +218,14 @@ func SuperviseStdio(args []string, dir string, deadline time.Duration, stdio str
 	case <-time.After(deadline):
 		res.TimedOut = true
 		res.Diagnosis, res.Descendant = diagnoseBlockedWriter(cmd.Process.Pid)
+		if res.Diagnosis == "" {
+			res.Diagnosis = diagnoseSpin(cmd.Process.Pid, &buf, done, deadline)
+		}
 		_ = syscall.Kill(-cmd.Process.Pid, syscall.SIGKILL)
-		<-done
+		select {
+		case <-done:
+		case <-time.After(10 * time.Second):
+		}
 	}
 	_ = syscall.Kill(-cmd.Process.Pid, syscall.SIGKILL)
 	res.Elapsed = time.Since(start)
